@@ -147,7 +147,8 @@ func externalWrites(callee *ssa.Function, nargs int) []int {
 	switch {
 	case strings.HasPrefix(name, "math/bits."), strings.HasPrefix(name, "crypto/subtle.ConstantTimeCompare"), strings.HasPrefix(name, "crypto/subtle.ConstantTimeByteEq"),
 		strings.HasPrefix(name, "crypto/subtle.ConstantTimeEq"), strings.HasPrefix(name, "crypto/subtle.ConstantTimeSelect"), strings.HasPrefix(name, "crypto/subtle.ConstantTimeLessOrEq"),
-		name == "errors.New", strings.HasPrefix(name, "fmt."), strings.HasPrefix(name, "strconv."), strings.HasPrefix(name, "math."), name == "encoding/hex.DecodeString", name == "encoding/hex.EncodeToString":
+		name == "errors.New", strings.HasPrefix(name, "fmt."), strings.HasPrefix(name, "strconv."), strings.HasPrefix(name, "math."), name == "encoding/hex.DecodeString", name == "encoding/hex.EncodeToString",
+		name == "bytes.Equal", name == "bytes.Compare", name == "bytes.HasPrefix", name == "bytes.HasSuffix", name == "bytes.IndexByte":
 		return nil
 	case strings.Contains(name, "Endian).Uint"):
 		return nil
